@@ -8,6 +8,7 @@
   round runs. `replay` feeds the original input into every round, `iterate` feeds the round's
   output into the next round and finally emits the last round's output.
 -/
+import NoirVerif.Model.Leader
 namespace Noir.SeqLoop
 
 variable {σ δ α : Type}
@@ -72,5 +73,33 @@ def seqReplay (l : Loop σ δ α) (split : List α → List (List α)) (input : 
 /-- result of `iterate`: the final state and the output of the last round -/
 def seqIterate (l : Loop σ δ α) (split : List α → List (List α)) (input : List α) : σ × List α :=
   lastD (trace l true split input) (l.init, [])
+
+/-! ### The loop closed over the leader
+
+Given `state_read_is_previous_round` (every replica evaluates the body of a round against the state
+of the last broadcast) and `iterationEnd_one_delta_per_round`, a round delivers to the leader the
+deltas `deltas l (split out)` of `out = body S inp`, `S` being the last broadcast state. `closedLoop`
+runs the leader model in this feedback loop and collects its actions. -/
+
+/-- the leader configuration of a loop with `n` end replicas -/
+def cfgOf (l : Loop σ δ α) (n : Nat) : Leader.Cfg σ δ :=
+  { init := l.init, maxIter := l.maxIter, n := n, global := l.global, cond := l.cond }
+
+def closedLoop (l : Loop σ δ α) (n : Nat) (feed : Bool) (split : List α → List (List α)) :
+    Nat → Leader.St σ → σ → List α → List (Leader.Out σ)
+  | 0, _, _, _ => []
+  | fuel + 1, st, S, inp =>
+    let out := l.body S inp
+    let r := Leader.runDeltas (cfgOf l n) st (deltas l (split out))
+    match r.2 with
+    | [.feedback true S'] => .feedback true S' :: closedLoop l n feed split fuel r.1 S' (if feed then out else inp)
+    | o => o
+
+/-- what the leader should do for a given list of rounds: `(true, S_k)` after every round but the
+    last, then `(false, init)`, `Item(S_last)`, `FlushAndRestart` -/
+def expectOuts (init : σ) : List (σ × List α) → List (Leader.Out σ)
+  | [] => []
+  | [(S, _)] => [.feedback false init, .elem (.item S), .elem .far]
+  | (S, _) :: rest => .feedback true S :: expectOuts init rest
 
 end Noir.SeqLoop
